@@ -197,6 +197,10 @@ func H_C20_forward() {
 		f := goDocFlags[symx.Choose(len(goDocFlags))]
 		form := symx.Choose(3)
 		v := symx.String("v", 1+symx.Choose(tier(1, 2)))
+		if !f.Bool && symx.Choose(2) == 1 {
+			// a value that looks like a build flag must stay a value
+			v = []string{"-race", "-tags=x", "-cover"}[symx.Choose(3)]
+		}
 		if f.Bool && form == 2 {
 			v = "true"
 		}
@@ -278,4 +282,24 @@ func H_C20_garbleflag_positive() {
 	}
 	symx.Reach("rx")
 	symx.Assert(rxGarbleFlag.MatchString(a), "garble flag after the command must be rejected")
+}
+
+// H_C20_reject_unknown: reverse and map reject every flag that is not a build
+// flag, in every spelling, and accept build flags.
+func H_C20_reject_unknown() {
+	f := goDocFlags[symx.Choose(len(goDocFlags))]
+	form := symx.Choose(3)
+	v := symx.String("v", 1+symx.Choose(2))
+	if f.Bool && form == 2 {
+		v = "true"
+	}
+	flags := spell(f, form, v)
+	symx.Reach("reject")
+	err := rejectUnknownBuildFlags(flags)
+	if f.Build && forwardBuildFlags[f.Name] {
+		symx.Assert(err == nil, "build-affecting flags are accepted by reverse/map: "+f.Name)
+	}
+	if !f.Build {
+		symx.Assert(err != nil, "non-build flags are rejected by reverse/map: "+f.Name)
+	}
 }
